@@ -153,9 +153,30 @@ def random_check(ctx, n):
         if any(isinstance(f["uops"], dict) for f in base["forms"]):
             # alternatives change the micro-op set between modes: no optimum comparison, but the choice of the
             # alternative is part of the model and is compared bit for bit
+            optmin = None
             for mode in pressure.MODES:
                 c = dict(base, mode=mode)
-                cases_outs.append((c, pressure.run_impl(c)))
+                o = pressure.run_impl(c)
+                cases_outs.append((c, o))
+                if o[0] != "ok" or not o[2] or mode == "uniform":
+                    continue
+                # whichever alternatives were chosen: every line still carries micro-ops of its OWN form, and the bottleneck does
+                # not undercut the best optimum any choice of alternatives admits
+                for ln, got in pressure.foreign_uops(c, o):
+                    ctx.violation(mode + ":line-carries-micro-ops-of-another-form", "line %d reports the micro-ops %s, not an alternative of its "
+                                  "instruction form %s" % (ln, str(got)[:160], str(base["forms"][base["kernel"][ln]]["uops"])[:200]), {"case": c})
+                    break
+                if len(base["ports"]) <= 5:
+                    optmin = pressure.optimum_over_alternatives(base) if optmin is None else optmin
+                    nmulti = sum(max(sum(1 for u in a if len(list(u[1])) >= 2) for a in pressure.alternatives_of(base["forms"][fi]))
+                                 for fi in base["kernel"] if base["forms"][fi]["tp"] != 0.0)
+                    under = float(optmin - F(max(o[2])))
+                    if under > 0.01 + 0.005 * nmulti + 1e-9:
+                        text = "bottleneck %s undercuts the best exact optimum over all alternative choices %s by %.4f" % (max(o[2]), float(optmin), under)
+                        if mode == "twice":
+                            c01.PENDING.append((id(c), "bottleneck-below-optimum", text, c, "second-pass:"))
+                        else:
+                            ctx.violation("once:bottleneck-below-optimum", text, {"case": c})
             ctx.count()
             continue
         outs, cobjs = {}, {}
